@@ -36,7 +36,11 @@ def observe(text):
     except Exception as e:  # noqa: BLE001
         return {"text": cps(text), "err": type(e).__name__, "compiled": False, "lines": [], "cmp": False}
     try:
-        compile(code, "<vyxal>", "exec")
+        import warnings
+
+        with warnings.catch_warnings():
+            warnings.simplefilter("ignore")
+            compile(code, "<vyxal>", "exec")
         ok = True
         cerr = ""
     except (SyntaxError, ValueError) as e:
@@ -100,6 +104,33 @@ def cases(tier, rng):
                     p = ctx.replace("□", lit)
                     out.append(p)
                     out.append("\x00D" + p)
+    # WIDTH: structures with many branches / items / parameters (templates whose indentation or
+    # nesting is computed per branch), closed, end-truncated and nested
+    for k in range(1, 10 if tier == "quick" else 14):
+        brs = "|".join(str(j % 10) for j in range(1, k + 1))
+        for o, c in (("[", "]"), ("⟨", "⟩"), ("{", "}"), ("(", ")"), ("λ", ";"), ("@f:", ";")):
+            body = brs if o != "@f:" else ":".join(["1", "a", "2", "b", "*"][: max(1, k % 6)]) + "|" + brs.replace("|", " ")
+            for ctx in ("□", "λ□;", "[1|□]", "(□)", "⟨□⟩", "@g|□;", "v□"):
+                out.append(ctx.replace("□", o + body + c))
+                out.append(ctx.replace("□", o + body))
+            out.append(o + body + "|")
+    # NAMES written with any plain character of the code page (the parser / transpiler keep identifier characters)
+    from vyxal.encoding import codepage
+    for ch in codepage:
+        for ctx in ("@f□;", "@f□|1;", "@□g:1|1;", "(□|1)", "(a□|1)", "λ@f□|1;@f□;;", "@□;", "→a□", "←□a"):
+            out.append(ctx.replace("□", ch))
+    # every code-page character inside every kind of string literal, dictionary compression on and off
+    for ch in codepage:
+        for lit in ("`□`", "`a□b`", "`□", "‛□a", "‛a□", "«□a«", "»□1»", "\\□", "⁺□", "`□□`"):
+            p = lit.replace("□", ch)
+            out.append(p)
+            out.append("[" + p + "|1]" if not p.endswith(("«", "»")) or True else p)
+            out.append("\x00D" + p)
+    for _ in range(1500 if tier == "quick" else 40000):
+        body = "".join(rng.choice(codepage) for _ in range(rng.randint(2, 4)))
+        if "`" in body:
+            continue
+        out.append("`" + body + "`")
     return list(dict.fromkeys(out))
 
 
